@@ -6,7 +6,7 @@ import ast
 from ..cfg import typestate
 from ..fold import Scope, dotted, src
 from ..frames import Unrecognised, frame_at, terms_at
-from .common import (attr_stores, ctx, ff_for, find_calls, must_pass, node_calls, own_nodes, path_text)
+from .common import (attr_stores, ctx, ff_for, find_calls, guarded_raise_envs, must_pass, node_calls, own_nodes, path_text)
 from .sdoframes import CLIENT, check_layout, check_length, check_stores, command_expr, sinks
 
 CL = "canopen/sdo/client.py"
@@ -278,6 +278,11 @@ def _sequence(chk, repo, folder):
         g = [ff.norm(e, subst=False) for e, p in ff.facts_at(a.ast) if p]
         chk.check(ff.canon("self._seqno >= self._blksize") in g or ff.canon("self._seqno == self._blksize") in g, "R4", f"{CL}:{C}.send | acknowledge at block end", f.loc(a.ast),
                   f"_block_ack() called under {g}; expected seqno >= blksize")
+        allf = [(ff.norm(e, subst=False), p) for e, p in ff.facts_at(a.ast)]
+        extra = [(t, p) for t, p in allf if "_retransmitting" in t or "crc" in t]
+        chk.check(not extra, "R4", f"{CL}:{C}.send | acknowledge at the end of every block, resent ones included", f.loc(a.ast),
+                  f"_block_ack() is only reached under {extra}: a block that fills up while segments are being resent is not acknowledged, the sequence number runs past the block "
+                  f"size and the server drops what follows")
         for s_ in sends:
             chk.check(ff.cfg.dominates(s_, a), "R4", f"{CL}:{C}.send | segment sent before waiting for the acknowledge", f.loc(a.ast), "")
     shr = [s_ for s_ in attr_stores(f.node, "_blksize")]
@@ -299,6 +304,12 @@ def _ack(chk, repo, folder):
         names = [src(e) for e in u.targets[0].elts] if isinstance(u.targets[0], ast.Tuple) else []
         ok = ok or (fmt == "BBB" and names == ["res_command", "ackseq", "blksize"] and src(u.value.args[1]) == "response")
     chk.check(ok, "R5", f"{CL}:{C}._block_ack | acknowledge decoded", f.loc(), "expected (command, ackseq, blksize) from bytes 0..2")
+    # every acknowledge a conformant server may send is taken: 0..(segments sent) acknowledged, any next block size 1..127 --
+    # in particular a next block size below the count just acknowledged
+    guarded_raise_envs(chk, "R5", f, ff, [{"self._blksize": 10, "ackseq": 10, "blksize": 4}, {"self._blksize": 127, "ackseq": 127, "blksize": 1},
+                                          {"self._blksize": 127, "ackseq": 64, "blksize": 127}, {"self._blksize": 1, "ackseq": 0, "blksize": 127},
+                                          {"self._blksize": 1, "ackseq": 1, "blksize": 1}, {"self._blksize": 64, "ackseq": 64, "blksize": 16}],
+                       "every legal acknowledge (ackseq 0..sent, next block size 1..127)")
     # mismatch -> retransmit(ackseq, blksize) and return
     rt = find_calls(f.node, "self._retransmit")
     chk.floor("R5", len(rt), 1, "_retransmit call in _block_ack")
